@@ -220,7 +220,7 @@ PROPS = {
         engine="step-harness+codec-harness",
     ),
     "C19": dict(
-        lean_modules=["Swim.Model.Acks", "Swim.Props.C19", 'Swim.Model.Handlers', 'Swim.Props.C19Table', "Swim.Props.GenTie.Acks", "Swim.Model.Select", "Swim.Props.Select", "Swim.Props.GenTie.Select"],
+        lean_modules=["Swim.Model.Acks", "Swim.Props.C19", 'Swim.Model.Handlers', 'Swim.Props.C19Table', "Swim.Props.GenTie.Acks", "Swim.Model.Select", "Swim.Props.Select", "Swim.Props.GenTie.Select", "Swim.Props.C04Facts"],
         tests="^TestC19$",
         rule=("virtual-time scripts (testing/synctest) on a real node with a capturing transport: (probe) probeNode against a target with 0-4 relays "
               "of mixed protocol versions, IndirectChecks 0/1/3, initial health score 0-3, AwarenessMaxMultiplier 1/2/8, TCP fallback off / refused / "
@@ -261,7 +261,7 @@ PROPS = {
         engine="codec-harness+fact-extractor",
     ),
     "C03": dict(
-        lean_modules=['Swim.Model.Probe', 'Swim.Model.Susp', 'Swim.Lemmas.Merge', 'Swim.Props.C06', 'Swim.Props.C03', 'Swim.Model.Cluster', 'Swim.Props.Cluster', 'Swim.Props.ClusterG', 'Swim.Props.Projection', 'Swim.Props.C03Cluster', 'Swim.Gen.Facts', 'Swim.Props.C06Facts', "Swim.Model.Select", "Swim.Props.Select", "Swim.Props.GenTie.Select"],
+        lean_modules=['Swim.Model.Probe', 'Swim.Model.Susp', 'Swim.Lemmas.Merge', 'Swim.Props.C06', 'Swim.Props.C03', 'Swim.Model.Cluster', 'Swim.Props.Cluster', 'Swim.Props.ClusterG', 'Swim.Props.Projection', 'Swim.Props.C03Cluster', 'Swim.Gen.Facts', 'Swim.Props.C06Facts', "Swim.Model.Select", "Swim.Props.Select", "Swim.Props.GenTie.Select", "Swim.Props.C04Facts"],
         tests="^TestC03$",
         timeout_quick=400,
         shards_quick=4,
@@ -275,7 +275,7 @@ PROPS = {
         engine="cluster-simulator",
     ),
     "C04": dict(
-        lean_modules=['Swim.Model.Acks', 'Swim.Lemmas.Merge', 'Swim.Props.C19', 'Swim.Props.C18', 'Swim.Props.C04', 'Swim.Model.Cluster', 'Swim.Props.Cluster', 'Swim.Props.C04Cluster', "Swim.Props.GenTie.Acks"],
+        lean_modules=['Swim.Model.Acks', 'Swim.Lemmas.Merge', 'Swim.Props.C19', 'Swim.Props.C18', 'Swim.Props.C04', 'Swim.Model.Cluster', 'Swim.Props.Cluster', 'Swim.Props.C04Cluster', "Swim.Props.GenTie.Acks", "Swim.Props.C04Facts"],
         tests="^TestC04(Cluster)?$",
         timeout_quick=400,
         shards_quick=4,
